@@ -3,10 +3,12 @@
 //! cases (ndjson) or produces implementation traces (ndjson) for TLC to validate.
 
 mod absgraph;
+mod c01;
 mod c03;
 mod c04;
 mod c06;
 mod ids;
+mod programs;
 mod util;
 
 fn main() {
@@ -18,6 +20,7 @@ fn main() {
             println!("{}", ids::rank_table());
             0
         }
+        "c01" => c01::run(&rest),
         "c03" => c03::run(&rest),
         "c03-keys" => c03::run_keys(&rest),
         "c04" => c04::run(&rest),
